@@ -87,6 +87,12 @@ func runC13(r *Report) {
 	}
 	r.Floor("R-C13-2", 12, "expiry comparisons in the memory backend")
 
+	// ---- R-C13-5 expired entries are absent / expiry-driven deletes re-validate ---
+	for _, f := range r.P.FuncsIn(memPkg) {
+		checkExpiredAbsent(r, f)
+	}
+	r.Floor("R-C13-5", 10, "expiry branches in the memory backend")
+
 	// ---- R-C13-3 zero ttl = never ------------------------------------------
 	for _, pk := range []string{memPkg, "internal/core/storage/redis"} {
 		for _, f := range r.P.FuncsIn(pk) {
@@ -436,4 +442,181 @@ func checkTTLUses(r *Report, f *ssa.Function, p *ssa.Parameter) {
 		}
 	}
 	visit(p, 0)
+}
+
+// expiryCompare: v is (derived from) a clock comparison on StorageItem.Expiration.
+// Returns the comparison call, the item base and whether v==true means "expired".
+func expiryCompare(v ssa.Value, depth int) (call *ssa.Call, item ssa.Value, trueMeansExpired bool, ok bool) {
+	if depth > 4 {
+		return nil, nil, false, false
+	}
+	v, pol := normCond(v, true)
+	switch x := v.(type) {
+	case *ssa.Call:
+		c := CalleeOf(x)
+		if c.Pkg != "time" || c.Recv != "Time" || (c.Name != "After" && c.Name != "Before") {
+			return nil, nil, false, false
+		}
+		// now.After(exp): true = expired ; now.Before(exp): true = alive ; exp.After(now): true = alive ; exp.Before(now): true = expired
+		recvIsExp, argIsExp := false, false
+		if t, f, b, ok := FieldOf(x.Call.Args[0]); ok && t == "StorageItem" && f == "Expiration" {
+			recvIsExp, item = true, b
+		}
+		if t, f, b, ok := FieldOf(x.Call.Args[1]); ok && t == "StorageItem" && f == "Expiration" {
+			argIsExp, item = true, b
+		}
+		if recvIsExp == argIsExp {
+			return nil, nil, false, false
+		}
+		exp := (c.Name == "After" && argIsExp) || (c.Name == "Before" && recvIsExp)
+		return x, item, exp == pol, true
+	case *ssa.Phi:
+		// `expired := !IsZero && now.After(exp)` lowers to phi(false, After(...))
+		for _, e := range x.Edges {
+			if _, isC := ConstBool(e); isC {
+				continue
+			}
+			if c, it, tme, ok := expiryCompare(e, depth+1); ok {
+				return c, it, tme == pol, true
+			}
+		}
+	}
+	return nil, nil, false, false
+}
+
+// checkExpiredAbsent: (a) from the 'expired' edge of every expiry test no read
+// of the same item's Value is reachable before the item is reset (an expired
+// entry must be treated as absent); (b) a map delete that is dominated by an
+// expiry observation made before the current lock acquisition must also be
+// dominated by an expiry observation made after it (re-validation).
+func checkExpiredAbsent(r *Report, f *ssa.Function) {
+	fn := r.P.FuncName(f)
+	for _, b := range f.Blocks {
+		if len(b.Instrs) == 0 {
+			continue
+		}
+		iff, ok := b.Instrs[len(b.Instrs)-1].(*ssa.If)
+		if !ok {
+			continue
+		}
+		call, item, tme, ok := expiryCompare(iff.Cond, 0)
+		if !ok {
+			continue
+		}
+		expiredSucc := b.Succs[0]
+		if !tme {
+			expiredSucc = b.Succs[1]
+		}
+		defs := defChain(item)
+		hits := WalkFrom(expiredSucc, nil, func(in ssa.Instruction) int {
+			if defs[in] {
+				return Stop // the item variable is re-bound (next loop iteration / fresh lookup)
+			}
+			switch x := in.(type) {
+			case *ssa.Store:
+				if t, fld, base, ok := FieldOf(x.Addr); ok && t == "StorageItem" && (fld == "Value" || fld == "Expiration") && sameItem(base, item) {
+					return Stop // item reset
+				}
+			case *ssa.UnOp:
+				if x.Op == token.MUL {
+					if t, fld, base, ok := FieldOf(x.X); ok && t == "StorageItem" && fld == "Value" && sameItem(base, item) {
+						return Hit
+					}
+				}
+			}
+			return Cont
+		}, nil)
+		r.Ob("R-C13-5", call.Pos(), len(hits) == 0,
+			"an expired entry must be treated as absent: no read of its value may be reachable from the 'expired' edge of the expiry test before the item is reset",
+			fn, "expired-is-absent")
+	}
+	// (a') a stored value is read only after its expiry was evaluated
+	if !strings.HasPrefix(Outermost(f).Name(), "Z") && f.Name() != "toMemberString" { // sorted sets are stored without expiry by design
+		Instrs(f, func(in ssa.Instruction) {
+			u, ok := in.(*ssa.UnOp)
+			if !ok || u.Op != token.MUL {
+				return
+			}
+			t, fld, base, ok := FieldOf(u.X)
+			if !ok || t != "StorageItem" || fld != "Value" || IsFresh(base) {
+				return
+			}
+			skipped := ReachesWithout(f, in, func(v ssa.Instruction) bool {
+				c, ok := v.(*ssa.Call)
+				if !ok || !CalleeOf(c).Is("time:Time.IsZero") {
+					return false
+				}
+				t2, f2, b2, ok := FieldOf(c.Call.Args[0])
+				return ok && t2 == "StorageItem" && f2 == "Expiration" && sameItem(b2, base)
+			})
+			r.Ob("R-C13-5", in.Pos(), !skipped,
+				"a stored value is read on a path that never evaluated the entry's expiry (an expired entry would be served as live)",
+				fn, "value-read-after-expiry-test")
+		})
+	}
+	// (b) deletes
+	Instrs(f, func(in ssa.Instruction) {
+		ci, ok := in.(*ssa.Call)
+		if !ok {
+			return
+		}
+		bi, ok := ci.Call.Value.(*ssa.Builtin)
+		if !ok || bi.Name() != "delete" {
+			return
+		}
+		if t, fld, _, ok := FieldOf(ci.Call.Args[0]); !ok || t != "Storage" || fld != "data" {
+			return
+		}
+		// nearest dominating write-lock acquisition
+		var k ssa.Instruction
+		Instrs(f, func(l ssa.Instruction) {
+			if lc, ok := l.(*ssa.Call); ok {
+				if id, op, ok := lockOp(lc); ok && op == "Lock" && strings.HasSuffix(id, "mu") && Before(l, in) && (k == nil || Before(k, l)) {
+					k = l
+				}
+			}
+		})
+		if k == nil {
+			return
+		}
+		outside, inside := false, false
+		for _, ft := range Facts(in.Block()) {
+			call, _, tme, ok := expiryCompare(ft.Cond, 0)
+			if !ok || tme != ft.Pol {
+				continue
+			}
+			if Before(k, call) {
+				inside = true
+			} else {
+				outside = true
+			}
+		}
+		if outside {
+			r.Ob("R-C13-5", ci.Pos(), inside,
+				"a delete triggered by an expiry observation made before the lock was (re)acquired must re-test expiry inside the critical section (a concurrent writer may have refreshed the key)",
+				fn, "expiry-delete-revalidated")
+		}
+	})
+}
+
+// defChain: the instructions that (re)define an item value: the value itself
+// and the extract/lookup/next instructions it is projected from.
+func defChain(v ssa.Value) map[ssa.Instruction]bool {
+	out := map[ssa.Instruction]bool{}
+	for i := 0; i < 6 && v != nil; i++ {
+		in, ok := v.(ssa.Instruction)
+		if !ok {
+			break
+		}
+		out[in] = true
+		switch x := v.(type) {
+		case *ssa.Extract:
+			v = x.Tuple
+		case *ssa.UnOp:
+			v = x.X
+		default:
+			v = nil
+		}
+	}
+	return out
 }
